@@ -6,6 +6,7 @@ import re
 import subprocess
 import vlib
 import proc
+import world
 import worldscen as ws
 import gen_rules
 import confshape
@@ -398,6 +399,68 @@ def grammar_configs(rng, n):
     return out
 
 
+# --------------------------------------------------------------------------
+# the run from the configuration TEXT: parser model and world model tied to each other
+# --------------------------------------------------------------------------
+
+def text_specs():
+    """World scenarios followed twice along the trace of the real run: with the trees of the real parser (`M conform`,
+    harness `ast`) and from the text of the file through the parser model (`M conformtext`, Model.mainText).
+    -> [(spec, -D definitions, pattern list or None when only the text path exists)]"""
+    out = [(s, [], s.pats) for s in ws.corpus()]
+    base = BASE.replace('@HELPER@', ws.HELPER)
+    bpats = [('user', ''), ('x(y)?', 'i'), ('pdf', '')]
+    out.append((ws.Spec('reference', base, bpats, tree=population()), [], bpats))
+    out.append((ws.Spec('reference-stdin', base, bpats, tree=population(), stdin=ws.msg(5), args=['-'], kind='stdin'), [], bpats))
+    for name, e in EDITS:
+        bad = e(base)
+        if bad is None:
+            continue
+        out.append((ws.Spec('edit:' + name, bad, [], tree=population()), [], []))
+        out.append((ws.Spec('edit-stdin:' + name, bad, [], tree=population(), stdin=ws.msg(5), args=['-'], kind='stdin'), [], []))
+    mv = 'maildir "%s/src" {\n\tmatch all move "${dir}"\n}\n' % R
+    out.append((ws.Spec('macro-file', 'dir = "%s/dst"\n' % R + mv), [], []))
+    out.append((ws.Spec('macro-D-overrides-file', 'dir = "%s/dst"\n' % R + mv), [(b'dir', b'@R@/dst2')], None))
+    out.append((ws.Spec('macro-D-only', mv), [(b'dir', b'@R@/dst2')], None))
+    out.append((ws.Spec('macro-D-unused', 'maildir "%s/src" {\n\tmatch all flag !new\n}\n' % R), [(b'unused', b'x')], None))
+    out.append((ws.Spec('macro-D-path', mv), [(b'path', b'x')], None))
+    out.append((ws.Spec('macro-D-path-stdin', 'stdin {\n\tmatch all move "%s/dst"\n}\n' % R, tree=population(), stdin=ws.msg(5), args=['-'],
+                        kind='stdin'), [(b'path', b'x')], None))
+    out.append((ws.Spec('macro-D-twice', mv), [(b'dir', b'@R@/dst'), (b'dir', b'@R@/dst2')], None))
+    out.append((ws.Spec('macro-file-twice-under-D', 'dir = "a"\ndir = "b"\n' + mv), [(b'dir', b'@R@/dst2')], None))
+    out.append((ws.Spec('macro-path-deferred', 'maildir "%s/src" {\n\tmatch all label "${path}"\n}\n' % R), [], []))
+    out.append((ws.Spec('macro-path-from-two-values', 'a = "$"\nb = "{path}"\nmaildir "%s/src" {\n\tmatch all label "${a}${b}"\n}\n' % R), [], []))
+    out.append((ws.Spec('macro-value-not-rescanned', 'b = "%s/dst"\nmaildir "%s/src" {\n\tmatch all move "${b}" label "${a}"\n}\n' % (R, R)),
+                [(b'a', b'${b}')], None))
+    out.append((ws.Spec('macro-in-add-header-and-flags', 'f = "F"\nv = "val"\nmaildir "%s/src" {\n\tmatch all add-header "X-${v}" "${v}" flags "${f}"\n}\n' % R), [], []))
+    t = {}
+    t.update(proc.maildir_tree('home/md', {('new', '1.host'): ws.msg(1), ('cur', '2.host:2,S'): ws.msg(2)}))
+    t.update(proc.maildir_tree('home/dst', {}))
+    out.append((ws.Spec('tilde', 'maildir "~/md" {\n\tmatch all move "~/dst"\n}\n', tree=t), [], []))
+    return out
+
+
+def text_one(tools, W, item):
+    spec, defs, pats = item
+    scen = spec.build(tools)
+    try:
+        rdefs = [(k, v.replace(b'@R@', scen.root.encode())) for k, v in defs]
+        scen.args = [x for k, v in rdefs for x in ('-D', (k + b'=' + v).decode('latin-1'))] + list(spec.args)
+        r = scen.run()
+        stdin = spec.kind == 'stdin'
+        rq_text, _, _ = W.request_text(scen, r, rdefs, stdin=stdin)
+        reqs = [rq_text]
+        if pats is not None:
+            reqs.append(W.request(scen, pats, r, stdin=stdin)[0])
+        ans = W.verdict(reqs)
+        kind, detail = world.compare(scen, r, ans[0])
+        return {'scenario': spec.name, 'status': r.status, 'text': ans[0][:400].replace(scen.root, R), 'ast': (ans[1][:400].replace(scen.root, R) if len(ans) > 1 else None),
+                'same': len(ans) == 1 or ans[0] == ans[1], 'conform': kind if kind == 'ok' else kind + ': ' + detail[:300].replace(scen.root, R),
+                'ncalls': len(r.calls()), 'config': scen.config.replace(scen.root, R)[:600], 'defs': [(k.decode('latin-1'), v.decode('latin-1')) for k, v in defs]}
+    finally:
+        scen.cleanup()
+
+
 def lex_records(h, henv, confs):
     reqs = ['lextrace %s %s' % (vlib.hexs(c if isinstance(c, bytes) else c.encode('latin-1')), vlib.hexs(b'/home/u')) for c in confs]
     return vlib.run_batch([h], reqs, henv)
@@ -579,6 +642,20 @@ def run(rep):
     for r in results:
         if r['problems']:
             rep.finding(r.get('cls', 'unlisted'), {'kind': r['kind'], 'config': r['config'], 'what': r['problems'][:4]})
+    # 3. the run from the configuration text: the same real run followed with the real parser's trees and with the parser model's
+    W = world.WorldCheck(sc, tools)
+    titems = text_specs()
+    with cf.ThreadPoolExecutor(vlib.NCPU) as ex:
+        tres = list(ex.map(lambda it: text_one(tools, W, it), titems))
+    text_differs = [t for t in tres if not t['same']]
+    text_bad = [t for t in tres if t['conform'] != 'ok' and not t['scenario'].startswith('reference')]
+    if text_differs and not rep.violations:
+        rep.violation({'obligation': 'Model.mainText (configuration text through the parser model) and Model.mainP on the trees of the real '
+                                     'parser give different verdicts on the same real run', 'disagreements': len(text_differs),
+                       'examples': text_differs[:6]}, False)
+    if text_bad and not rep.violations:
+        rep.violation({'obligation': 'correspondence: the real run does not follow Model.mainText (the program from the configuration text)',
+                       'disagreements': len(text_bad), 'examples': text_bad[:6]}, False)
     if corr_bad and not rep.violations:
         rep.violation({'obligation': 'correspondence yylex (parse.y) <-> Model/Lex.lean, token by token under the real parser', 'disagreements': len(corr_bad),
                        'examples': corr_bad[:6]}, False)
@@ -614,6 +691,15 @@ def run(rep):
         'parser_distinct_diagnostic_lines': conf_lines, 'parser_inner_nodes_compared': conf_nodes,
         'parser_mismatches': len(dconf.corr_mismatch),
         'printed_configs_read_back': len(preqs), 'printed_configs_bad': len(printed_bad),
+        'text_runs': len(tres), 'text_runs_both_ways': len([t for t in tres if t['ast'] is not None]),
+        'text_runs_with_D': len([t for t in tres if t['defs']]), 'text_runs_rejected': len([t for t in tres if t['status'] in (1, 75) and t['ncalls'] <= 2]),
+        'text_vs_ast_differences': len(text_differs), 'text_not_conforming': len(text_bad),
+        'text_rule': 'world scenarios (the C01 corpus, the reference configuration, each invalidating edit in maildir and stdin mode, macro '
+                     'scenarios incl. -D override / refused -D / deferred ${path} / values not rescanned / add-header and flags strings / ~) run on '
+                     'the real binary under the shim; the observed trace is followed by Model.mainP on the trees the REAL parser built (M conform) '
+                     'and by Model.mainText from the configuration TEXT and the -D options (M conformtext): both answers (exit status, final '
+                     'abstract file system, log) must be identical, and the text path must conform with the real run',
+        'text_samples': [t for t in tres if t['defs']][:2],
         'sanitizer_faults': nfault,
     })
 
